@@ -289,7 +289,7 @@ class Orchestrator:  # thailint: ignore[srp]
             List of violations found in the file.
         """
         # Fast path: skip compiled files and common excluded directories
-        if _is_hardcoded_excluded(file_path):
+        if _is_hardcoded_excluded(self._project_relative(file_path)):
             _verif_emit("lint_file", path=str(file_path), decision="excluded")
             return []
 
@@ -306,6 +306,13 @@ class Orchestrator:  # thailint: ignore[srp]
         context = FileLintContext(file_path, language, metadata=metadata)
 
         return self._execute_rules(rules, context)
+
+    def _project_relative(self, file_path: Path) -> Path:
+        """Path of the file inside the project, so directories above the project never matter."""
+        try:
+            return file_path.resolve().relative_to(self.project_root.resolve())
+        except (ValueError, OSError):
+            return file_path
 
     def lint_files(self, file_paths: list[Path]) -> list[Violation]:
         """Lint multiple files.
@@ -470,7 +477,9 @@ class Orchestrator:  # thailint: ignore[srp]
             if type(rule).finalize is not BaseLintRule.finalize
         ]
         for file_path in file_paths:
-            if _is_hardcoded_excluded(file_path) or self.ignore_parser.is_ignored(file_path):
+            if _is_hardcoded_excluded(
+                self._project_relative(file_path)
+            ) or self.ignore_parser.is_ignored(file_path):
                 continue
             metadata = {**self.config, "_project_root": self.project_root}
             context = FileLintContext(file_path, detect_language(file_path), metadata=metadata)
